@@ -8,6 +8,7 @@ import Req.Lemmas.C09PoolLru
 import Req.Lemmas.C09PoolCount
 import Req.Lemmas.C09PoolOnce
 import Req.Lemmas.C09Pairing
+import Req.Lemmas.C09Monitor
 /-!
 C09 — property theorems.
 
@@ -39,6 +40,12 @@ Pairing part (model `Req/Pool/Pairing.lean`)
                           every request written on it has had its response fully consumed, none is
                           expected, and the read loop is back at its top.
 * `one_request_at_a_time` : `numExpectedResponses ≤ 1`.
+
+Monitor part (`Req/Pool/Monitor.lean`, the judge of the concurrent lanes)
+* `monitor_accepts_only_own_responses` : in a history the monitor accepts, every caller that
+                          finished got the echo of its own tag with an intact body.
+* `monitor_accepts_no_overlap` : every HTTP/1.1 request event it lets pass found no other
+                          request outstanding on that connection.
 
 NOT proved (see notes/C09.md): liveness (every live connection is in at least one place / no
 leak), HTTP/2 (`pconn.alt`) entries of the idle list, `IdleConnTimeout` staleness (`tooOld`) —
@@ -260,5 +267,45 @@ example :
   decide
 
 end Pairing
+
+/-! ## History monitor -/
+section Monitor
+open Req.Pool.Monitor Req.Lemmas.C09Monitor
+
+/-- **monitor_accepts_only_own_responses** — acceptance by the spec monitor means: every
+`done` event of the history carries the caller's own tag and a body that matched it. -/
+theorem monitor_accepts_only_own_responses (cfg : Req.Pool.Monitor.Cfg) (h : List Req.Pool.Monitor.Ev)
+    (hacc : check cfg h = .ok ()) (t echo : Nat) (ok early : Bool)
+    (hm : Req.Pool.Monitor.Ev.done t echo ok early ∈ h) : echo = t ∧ ok = true := by
+  unfold check at hacc
+  cases hr : runFrom cfg {} 0 h with
+  | error e => rw [hr] at hacc; cases hacc
+  | ok s =>
+    obtain ⟨s₁, s₂, hs⟩ := runFrom_ok_mem cfg h {} 0 s hr _ hm
+    exact step_done_ok cfg s₁ s₂ t echo ok early hs
+
+/-- **monitor_accepts_no_overlap** — every `req` event of an accepted history was taken in a
+monitor state with no request outstanding on that connection. -/
+theorem monitor_accepts_no_overlap (cfg : Req.Pool.Monitor.Cfg) (h : List Req.Pool.Monitor.Ev)
+    (hacc : check cfg h = .ok ()) (c t : Nat) (hm : Req.Pool.Monitor.Ev.req c t ∈ h) :
+    ∃ s₁ s₂, Req.Pool.Monitor.step cfg s₁ (.req c t) = .ok s₂ ∧ (s₁.outstanding.lookup c).isSome = false := by
+  unfold check at hacc
+  cases hr : runFrom cfg {} 0 h with
+  | error e => rw [hr] at hacc; cases hacc
+  | ok s =>
+    obtain ⟨s₁, s₂, hs⟩ := runFrom_ok_mem cfg h {} 0 s hr _ hm
+    exact ⟨s₁, s₂, hs, step_req_ok cfg s₁ s₂ c t hs⟩
+
+/-- Non-vacuity: a two-request history on one connection is accepted, the same history with the
+second request arriving before the first response is complete is rejected as `overlap`, and a
+swapped echo as `mixed-response`. -/
+example : verdict ⟨1, 2, 0⟩ [.send 1, .send 2, .opened 5 0, .req 5 1, .respLast 5 1, .done 1 1 true false,
+    .req 5 2, .respLast 5 2, .done 2 2 true false] = "ok" := by decide
+example : verdict ⟨1, 2, 0⟩ [.send 1, .send 2, .opened 5 0, .req 5 1, .req 5 2] = "violation overlap 4" := by
+  decide
+example : verdict ⟨1, 2, 0⟩ [.send 1, .send 2, .opened 5 0, .req 5 1, .respLast 5 1, .done 1 2 true false]
+    = "violation mixed-response 5" := by decide
+
+end Monitor
 
 end Req.Props.C09
